@@ -140,10 +140,23 @@ def client_hello(rng, impl, scsv_at_end=True, no_dup=True, scsv=None):
         kinds = rng.sample(['G', 'P', 'V', 'S', 'A', 'N', 'K', 'L', 'R'], rng.randint(1, 6))
     exts = []
     cmds = []
+    pending = []
     for k in kinds:
         t, cmd = ext_payload(rng, impl, k)
-        o = impl.impl_line(cmd)
         cmds.append(cmd)
+        pending.append((t, cmd))
+    # the payloads are the specification's (the extracted Coq encoder), not what the tree under test composes: a composer that
+    # reorders or drops items must not thereby shape the inputs; the implementation is the fallback when the runner is not built
+    outs = None
+    if pending:
+        try:
+            from harness import common
+            if common.build_runner().ok:
+                outs = common.run_model([c for _, c in pending])
+        except Exception:  # pylint: disable=broad-except
+            outs = None
+    for idx, (t, cmd) in enumerate(pending):
+        o = outs[idx] if outs is not None else impl.impl_line(cmd)
         if o.startswith('OK '):
             exts.append('%d:%s' % (t, o[3:]))
     for _ in range(rng.choice([0, 0, 1, 2])):   # unknown / GREASE / empty-payload extension types
